@@ -17,7 +17,7 @@ import subprocess
 import sys
 import time
 
-ROOT = "/verif"
+ROOT = os.path.dirname(os.path.dirname(os.path.abspath(__file__)))  # /verif (or a snapshot of it)
 REPO = os.environ.get("VERIF_REPO", "/repo")
 COQ = os.path.join(ROOT, "coq")
 BUILD = os.path.join(ROOT, "build")
